@@ -789,9 +789,14 @@ class OvldMC(type):
             mixins = [
                 v for v in ovlds[1:] if getattr(v, "_extend_super", False)
             ]
-            if mixins:
+            others = [v for v in values if v is not None and not is_ovld(v)]
+            # A base marked extend_super extends what the other bases
+            # define: overloaded methods before it, or plain ones anywhere
+            extends_plain = (
+                ovlds and others and getattr(ovlds[0], "_extend_super", False)
+            )
+            if mixins or extends_plain:
                 o = ovlds[0].copy(mixins=mixins)
-                others = [v for v in values if v is not None and not is_ovld(v)]
                 for other in others:
                     o.register(other)
                 o.rename(name)
